@@ -277,14 +277,75 @@ fn exec(st: &mut St, t: &[&str]) -> String {
     }
 }
 
+#[cfg(not(manuel_woelker_rust_vfs_verif))]
+fn run_par(_st: &St, _sched: Vec<usize>, _progs: Vec<Vec<(usize, String)>>) -> Vec<(usize, String)> {
+    eprintln!("SCRIPT: `par` needs a driver built with --cfg manuel_woelker_rust_vfs_verif");
+    std::process::exit(3);
+}
+
+#[cfg(manuel_woelker_rust_vfs_verif)]
+fn run_par(st: &St, sched: Vec<usize>, progs: Vec<Vec<(usize, String)>>) -> Vec<(usize, String)> {
+    vfs::verif_hooks::install(sched);
+    let mut results: Vec<(usize, String)> = vec![];
+    std::thread::scope(|scope| {
+        let mut hs = vec![];
+        for (tid, prog) in progs.into_iter().enumerate() {
+            let paths = st.paths.clone();
+            let ctls = st.ctls.clone();
+            hs.push(scope.spawn(move || {
+                let mut local = St { paths, handles: HashMap::new(), ctls, tmp: vec![] };
+                let mut res = vec![];
+                vfs::verif_hooks::register(tid);
+                for (ln, line) in prog {
+                    let toks: Vec<&str> = line.split_whitespace().collect();
+                    let r = catch_unwind(AssertUnwindSafe(|| exec(&mut local, &toks)));
+                    res.push((ln, match r { Ok(s) => s, Err(_) => "panic".to_string() }));
+                }
+                vfs::verif_hooks::finish();
+                res
+            }));
+        }
+        vfs::verif_hooks::start();
+        for h in hs { results.extend(h.join().unwrap()); }
+    });
+    vfs::verif_hooks::uninstall();
+    results.sort();
+    results
+}
+
 fn main() {
     std::panic::set_hook(Box::new(|_| {}));
     let args: Vec<String> = std::env::args().collect();
     let text = std::fs::read_to_string(&args[1]).expect("script file");
     let mut st = St { paths: HashMap::new(), handles: HashMap::new(), ctls: HashMap::new(), tmp: vec![] };
     let mut out = String::new();
+    let all_lines: Vec<&str> = text.lines().collect();
+    let mut skip_until = 0usize;
     for (i, line) in text.lines().enumerate() {
+        if i < skip_until {
+            continue;
+        }
         let line = line.trim();
+        if line.starts_with("par ") {
+            // concurrent block: `par <schedule>` / `T<i> <op...>` lines / `endpar`
+            let mut j = i + 1;
+            let mut progs: Vec<Vec<(usize, String)>> = vec![];
+            while j < all_lines.len() && all_lines[j].trim() != "endpar" {
+                let l = all_lines[j].trim();
+                let (t, rest) = l.split_once(' ').expect("SCRIPT: par line");
+                let tid: usize = t[1..].parse().expect("SCRIPT: thread id");
+                while progs.len() <= tid { progs.push(vec![]); }
+                progs[tid].push((j + 1, rest.to_string()));
+                j += 1;
+            }
+            skip_until = j + 1;
+            let sched: Vec<usize> = line[4..].trim().split(',').map(|x| if x == "m" { usize::MAX } else { x.parse().unwrap() }).collect();
+            out.push_str(&format!("{} ok\n", i + 1));
+            let results = run_par(&st, sched, progs);
+            for (ln, r) in results { out.push_str(&format!("{} {}\n", ln, r)); }
+            out.push_str(&format!("{} ok\n", j + 1));
+            continue;
+        }
         if line.is_empty() || line.starts_with('#') {
             if line.starts_with("#!") { out.push_str(line); out.push('\n'); }
             continue;
